@@ -21,6 +21,9 @@ func chainReason(ch []elem, trusted []*pki.Cert) string {
 		return "empty"
 	}
 	for _, e := range ch {
+		if e.misaligned {
+			return "entry-not-a-certificate"
+		}
 		if !e.intact() {
 			return "unparsable"
 		}
@@ -169,7 +172,9 @@ func (w *world) describe() string {
 	var parts []string
 	for _, e := range w.chain {
 		s := e.c.Label
-		if !e.intact() {
+		if e.misaligned {
+			s += fmt.Sprintf("(misaligned entry, %d bytes)", len(e.der))
+		} else if !e.intact() {
 			s += "(truncated)"
 		} else if !bytes.Equal(e.der, e.c.DER) {
 			s += "(sig-flipped)"
